@@ -7,34 +7,6 @@ Local Open Scope nat_scope.
 Notation thread := (@thread so_loc so_op).
 Notation config := (@config so_state so_loc so_op so_obs).
 
-(* ---- flat_map over the thread list --------------------------------------- *)
-Lemma fm_nil : forall A B (g : A -> list B) l, (forall y, In y l -> g y = []) -> flat_map g l = [].
-Proof.
-  intros A B g l H. induction l as [|y t IH]; [reflexivity|]. cbn [flat_map].
-  rewrite (H y), IH; [reflexivity| |left; reflexivity]. intros z Hz. apply H. right. exact Hz.
-Qed.
-
-Lemma fm_upd_same : forall A B (g : A -> list B) l k x old,
-  nth_error l k = Some old -> g x = g old -> flat_map g (upd_nth k x l) = flat_map g l.
-Proof.
-  induction l as [|y t IH]; intros k x old H E; [destruct k; discriminate H|].
-  destruct k as [|k']; cbn [nth_error] in H; cbn [upd_nth flat_map].
-  - injection H as ->. rewrite E. reflexivity.
-  - rewrite (IH k' x old H E). reflexivity.
-Qed.
-
-Lemma fm_single : forall A B (g : A -> list B) l k old,
-  nth_error l k = Some old ->
-  (forall j y, j <> k -> nth_error l j = Some y -> g y = []) -> flat_map g l = g old.
-Proof.
-  induction l as [|z t IH]; intros k old H Ho; [destruct k; discriminate H|].
-  destruct k as [|k']; cbn [nth_error] in H; cbn [flat_map].
-  - injection H as ->. rewrite fm_nil; [apply app_nil_r|]. intros y Hy.
-    apply In_nth_error in Hy. destruct Hy as [n Hn]. apply (Ho (S n) y); [discriminate|exact Hn].
-  - rewrite (Ho 0 z); [|discriminate|reflexivity]. cbn [app]. apply (IH k' old H).
-    intros j y Hj Hy. apply (Ho (S j) y); [congruence|exact Hy].
-Qed.
-
 (* a position that contributes to [infl]/[opn] holds the token *)
 Lemma tok0_infl : forall y : thread, ttok y = 0 -> tinfl y = [].
 Proof. intros y. unfold ttok, tinfl, olift. destruct (t_cur y) as [[]|]; cbn; intros; try reflexivity; discriminate. Qed.
